@@ -1,11 +1,21 @@
 (* GENERATED from the Go sources of /repo by /verif/tools/gen_model — do not edit. *)
 From Coq Require Import String.
-From OtpV Require Import Prelude Sha GoSem Errors Decoder Otp Ocra Utils Suite.
+From OtpV Require Import Prelude Sha GoSem Rfc4648 Errors Decoder Otp Ocra Utils Suite.
 Open Scope N_scope.
 
 Definition atoi_go (s : bytes) : Z * option err := match atoi s with Some v => (v, None) | None => (0%Z, Some (EStd 11 [])) end.
 Definition lookup_go (raw : bytes) : suite_cfg * bool := match lookup raw known_suites with Some c => (c, true) | None => (zero_cfg, false) end.
 Definition idxS (l : list bytes) (i : Z) : res bytes := if (i <? 0)%Z then Pnc else match nth_error l (Z.to_nat i) with Some b => Val b | None => Pnc end.
+Definition parse_uint_go (s : bytes) : N * option err := match parse_uint64 s with Some v => (v, None) | None => (0, Some (EStd 1 [s])) end.
+Definition hex_decode_go (s : bytes) : bytes * option err := match hex_decode s with Some b => (b, None) | None => ([], Some (EStd 2 [])) end.
+(* new(big.Int).SetString(s, 10): optional sign, decimal digits; big.Int.Text(16): lower-case hexadecimal, '-' for negatives *)
+Definition big_parse10 (s : bytes) : Z * bool :=
+  let '(neg, ds) := match s with 45 :: t => (true, t) | 43 :: t => (false, t) | _ => (false, s) end in
+  match ds with [] => (0%Z, false) | _ => if forallb is_dec_digit ds then ((if neg then - Z.of_N (dec_val ds) else Z.of_N (dec_val ds))%Z, true) else (0%Z, false) end.
+Definition lower_ascii (c : N) : N := if (65 <=? c) && (c <=? 90) then c + 32 else c.
+Definition big_text16 (z : Z) : bytes := if (z <? 0)%Z then 45 :: map lower_ascii (hex_text (Z.to_N (- z))) else map lower_ascii (hex_text (Z.to_N z)).
+(* crypto/rand.Read(buf) fills the whole buffer from the source (oracle parameter) and never reports an error *)
+Definition rand_fill (buf src : bytes) : bytes := firstn (length buf) src ++ skipn (length src) buf.
 Definition b32_decode_go (s : bytes) : bytes * option err :=
   let '(bs, o) := b32_decode_string s in (bs, match o with Some off => Some (EBase32 off) | None => None end).
 
@@ -593,4 +603,168 @@ Definition IsKnownSuite (raw : bytes) : res bool :=
 
 Definition SuiteConfigFromRaws (rawSuite : bytes) : res suite_cfg :=
   Val (fst (lookup_go rawSuite)).
+
+Fixpoint To8ByteBigEndian_loop1 (fuel : nat) (fuel0 : nat)   (out : bytes) (v : N) (i : Z) (kx : bytes -> N -> Z -> res bytes) {struct fuel} : res bytes :=
+  match fuel with O => OutOfFuel | S fuel =>
+  if (Z.leb 0%Z i) then (do out <- set_idx out i (wrap8 (N.land v 255%N));
+  let v := (N.shiftr v 8%N) in
+  let i := (wrap_int64 (Z.sub i 1%Z)) in
+  To8ByteBigEndian_loop1 fuel fuel0  out v i kx)
+  else kx out v i
+  end.
+
+Definition To8ByteBigEndian (fuel0 : nat) (v : N) : res bytes :=
+  do t1 <- make_bytes 8%Z;
+  let out := t1 in
+  let i := 7%Z in
+  To8ByteBigEndian_loop1 fuel0 fuel0 out v i (fun (out : bytes) (v : N) (i : Z) =>
+  Val out).
+
+Fixpoint ParseDecimalToBigEndian8_loop1 (fuel : nat) (fuel0 : nat)   (out : bytes) (v : N) (i : Z) (kx : bytes -> N -> Z -> res (bytes * (option err))) {struct fuel} : res (bytes * (option err)) :=
+  match fuel with O => OutOfFuel | S fuel =>
+  if (Z.leb 0%Z i) then (do out <- set_idx out i (wrap8 (N.land v 255%N));
+  let v := (N.shiftr v 8%N) in
+  let i := (wrap_int64 (Z.sub i 1%Z)) in
+  ParseDecimalToBigEndian8_loop1 fuel fuel0  out v i kx)
+  else kx out v i
+  end.
+
+Definition ParseDecimalToBigEndian8 (fuel0 : nat) (s : bytes) : res (bytes * (option err)) :=
+  do t1 <- Val (parse_uint_go s);
+  let '(v, err_) := t1 in
+  if (is_some err_) then (Val ([], err_))
+  else
+  do t2 <- make_bytes 8%Z;
+  let out := t2 in
+  let i := 7%Z in
+  ParseDecimalToBigEndian8_loop1 fuel0 fuel0 out v i (fun (out : bytes) (v : N) (i : Z) =>
+  Val (out, None)).
+
+Fixpoint ParseDecimal64BigEndian_loop1 (fuel : nat) (fuel0 : nat)   (out : bytes) (v : N) (i : Z) (kx : bytes -> N -> Z -> res (bytes * (option err))) {struct fuel} : res (bytes * (option err)) :=
+  match fuel with O => OutOfFuel | S fuel =>
+  if (Z.leb 0%Z i) then (do out <- set_idx out i (wrap8 (N.land v 255%N));
+  let v := (N.shiftr v 8%N) in
+  let i := (wrap_int64 (Z.sub i 1%Z)) in
+  ParseDecimal64BigEndian_loop1 fuel fuel0  out v i kx)
+  else kx out v i
+  end.
+
+Definition ParseDecimal64BigEndian (fuel0 : nat) (decStr : bytes) : res (bytes * (option err)) :=
+  do t1 <- Val (parse_uint_go decStr);
+  let '(v, err_) := t1 in
+  if (is_some err_) then (Val ([], err_))
+  else
+  do t2 <- make_bytes 8%Z;
+  let out := t2 in
+  let i := 7%Z in
+  ParseDecimal64BigEndian_loop1 fuel0 fuel0 out v i (fun (out : bytes) (v : N) (i : Z) =>
+  Val (out, None)).
+
+Definition LeftPadHex (s : bytes) (totalLen : Z) : res bytes :=
+  if (Z.leb totalLen (zlen s)) then (do t1 <- slice s (wrap_int64 (Z.sub (zlen s) totalLen)) (zlen s);
+  Val t1)
+  else
+  do t2 <- str_repeat (s2b "0") (wrap_int64 (Z.sub totalLen (zlen s)));
+  Val (t2 ++ s).
+
+Definition MustHexPadLeft (hexStr : bytes) (size : Z) : res bytes :=
+  do t1 <- LeftPadHex hexStr (wrap_int64 (Z.mul size 2%Z));
+  let padded := t1 in
+  do t2 <- Val (hex_decode_go padded);
+  let '(b, err_) := t2 in
+  if (is_some err_) then (Pnc (* panic(...) *) )
+  else
+  Val b.
+
+Fixpoint ParseHexTimestamp_loop1 (fuel : nat) (fuel0 : nat)   (ts : bytes) (kx : bytes -> res (bytes * (option err))) {struct fuel} : res (bytes * (option err)) :=
+  match fuel with O => OutOfFuel | S fuel =>
+  if (Z.ltb (zlen ts) 16%Z) then (let ts := ((s2b "0") ++ ts) in
+  ParseHexTimestamp_loop1 fuel fuel0  ts kx)
+  else kx ts
+  end.
+
+Definition ParseHexTimestamp (fuel0 : nat) (ts : bytes) : res (bytes * (option err)) :=
+  ParseHexTimestamp_loop1 fuel0 fuel0 ts (fun (ts : bytes) =>
+  Val (hex_decode_go ts)).
+
+Fixpoint ParseDecimalChallengeRFC6287_loop1 (fuel : nat) (fuel0 : nat)   (hx : bytes) (kx : bytes -> res (bytes * (option err))) {struct fuel} : res (bytes * (option err)) :=
+  match fuel with O => OutOfFuel | S fuel =>
+  if (Z.ltb (zlen hx) 256%Z) then (let hx := (hx ++ (s2b "0")) in
+  ParseDecimalChallengeRFC6287_loop1 fuel fuel0  hx kx)
+  else kx hx
+  end.
+
+Definition ParseDecimalChallengeRFC6287 (fuel0 : nat) (s : bytes) : res (bytes * (option err)) :=
+  do t1 <- Val (big_parse10 s);
+  let '(decVal, ok) := t1 in
+  if (negb ok) then (Val ([], (Some (EFmt T_invalid_decimal [] [s]))))
+  else
+  let hx := (to_upper_u (big_text16 decVal)) in
+  ParseDecimalChallengeRFC6287_loop1 fuel0 fuel0 hx (fun (hx : bytes) =>
+  Val (hex_decode_go hx)).
+
+Definition HexInputToOCRA (counter : bytes) (challenge : bytes) (password : bytes) (sessionInfo : bytes) (timestamp : bytes) : res (ocra_input * (option err)) :=
+  let input : ocra_input := (mkInput [] [] [] [] []) in
+  let b : bytes := [] in
+  let err_ : (option err) := None in
+  let kj1 := fun (b : bytes) (err_ : (option err)) (input : ocra_input) =>
+  let kj2 := fun (b : bytes) (err_ : (option err)) (input : ocra_input) =>
+  let kj3 := fun (b : bytes) (err_ : (option err)) (input : ocra_input) =>
+  let kj4 := fun (b : bytes) (err_ : (option err)) (input : ocra_input) =>
+  let kj5 := fun (b : bytes) (err_ : (option err)) (input : ocra_input) =>
+  Val (input, None) in
+  if (negb (beqb timestamp [])) then (do t1 <- Val (hex_decode_go timestamp);
+  let '(b, err_) := t1 in
+  if (is_some err_) then (Val ((mkInput [] [] [] [] []), (Some (EStd T_hex_timestamp []))))
+  else
+  let input := mkInput (oi_counter input) (oi_challenge input) (oi_password input) (oi_session input) b in
+  kj5 b err_ input)
+  else (kj5 b err_ input) in
+  if (negb (beqb sessionInfo [])) then (do t2 <- Val (hex_decode_go sessionInfo);
+  let '(b, err_) := t2 in
+  if (is_some err_) then (Val ((mkInput [] [] [] [] []), (Some (EStd T_hex_session []))))
+  else
+  let input := mkInput (oi_counter input) (oi_challenge input) (oi_password input) b (oi_timestamp input) in
+  kj4 b err_ input)
+  else (kj4 b err_ input) in
+  if (negb (beqb password [])) then (do t3 <- Val (hex_decode_go password);
+  let '(b, err_) := t3 in
+  if (is_some err_) then (Val ((mkInput [] [] [] [] []), (Some (EStd T_hex_password []))))
+  else
+  let input := mkInput (oi_counter input) (oi_challenge input) b (oi_session input) (oi_timestamp input) in
+  kj3 b err_ input)
+  else (kj3 b err_ input) in
+  if (negb (beqb challenge [])) then (do t4 <- Val (hex_decode_go challenge);
+  let '(b, err_) := t4 in
+  if (is_some err_) then (Val ((mkInput [] [] [] [] []), (Some (EStd T_hex_challenge []))))
+  else
+  let input := mkInput (oi_counter input) b (oi_password input) (oi_session input) (oi_timestamp input) in
+  kj2 b err_ input)
+  else (kj2 b err_ input) in
+  if (negb (beqb counter [])) then (do t5 <- Val (hex_decode_go counter);
+  let '(b, err_) := t5 in
+  if (is_some err_) then (Val ((mkInput [] [] [] [] []), (Some (EStd T_hex_counter []))))
+  else
+  let input := mkInput b (oi_challenge input) (oi_password input) (oi_session input) (oi_timestamp input) in
+  kj1 b err_ input)
+  else (kj1 b err_ input).
+
+Definition RandomSecret (junk_rand : bytes) (algo : N) : res (bytes * (option err)) :=
+  let size := 20%Z in
+  let t1 := algo in
+  let kj1 := fun (size : Z) =>
+  do t2 <- make_bytes size;
+  let secret := t2 in
+  let secret := (rand_fill secret junk_rand) in
+  let '(_, err_) := (zlen secret, @None err) in
+  if (is_some err_) then (Val ([], (Some (EStd T_random []))))
+  else
+  Val ((b32_nopad secret), None) in
+  if ((N.eqb t1 0%N)) then (let size := 20%Z in
+  kj1 size)
+  else if ((N.eqb t1 1%N)) then (let size := 32%Z in
+  kj1 size)
+  else if ((N.eqb t1 2%N)) then (let size := 64%Z in
+  kj1 size)
+  else (Val ([], (Some (ESent ErrUnsupportedAlgorithm)))).
 
